@@ -261,7 +261,7 @@ static uint64_t get_next_mclk_timestamp(void)
 static uint64_t mclk_lookup(uint32_t avtp_time)
 {
     uint64_t mclk_timestamp = get_next_mclk_timestamp();
-    uint64_t limit = mclk_timestamp + (1ULL << 32);
+    uint64_t start = mclk_timestamp;
 
     /* The AVTP timestamp denotes a point in time within a range of 2^32 ns:
      * a media clock timestamp further away than that cannot be the one it
@@ -270,7 +270,7 @@ static uint64_t mclk_lookup(uint32_t avtp_time)
      * 8 ns away from the media clock).
      */
     while (mclk_timestamp % (1ULL << 32) != avtp_time &&
-           mclk_timestamp < limit)
+           mclk_timestamp - start < (1ULL << 32))
         mclk_timestamp = get_next_mclk_timestamp();
 
     return mclk_timestamp;
